@@ -7,7 +7,7 @@ CHECKS = {
         text="Queue.tla explores every interleaving of one producer and one consumer at statement granularity (Lossless, DepthIsLen, "
              "NoPanic, token protocol, termination). QueueSeq.tla enumerates every sequential history up to a bound with the abstract results "
              "and the harness replays each on util.Queue comparing every return value. Histories recorded from two real goroutines under the race "
-             "detector and several GOMAXPROCS values are checked for linearizability against the same abstraction by QueueTrace.tla. Added in round 6: the queue as the channel's read loop feeds it (producer far ahead of the consumer, Read and ReadAll) from a transport that hands out the same buffer on every Read (vh c20chan).",
+             "detector and several GOMAXPROCS values are checked for linearizability against the same abstraction by QueueTrace.tla. Added in round 6: the queue as the channel's read loop feeds it (producer far ahead of the consumer, Read and ReadAll) from a transport that hands out the same buffer on every Read (vh c20chan). Round 8: a transient read error while chunks are still queued.",
         note="Trusted: TLC, the Go race detector, the mutex-ordered event log as real-time order. Bounds: 3 produced chunks x 5-6 consumer ops in the "
              "statement model; sequential histories of length 5 (quick) / 7 (thorough); 24 / 120 recorded concurrent histories."),
 }
@@ -19,7 +19,7 @@ CHECKS["C01"] = dict(
          "choice, and TLC shows Aligned / DeviceGot / NoForeign / termination for every cut, read size, depth, strip/exact/echo style within the bounds. "
          "ChannelScn.tla generates scripted sessions that satisfy the property's preconditions together with the results the contract predicts; the harness "
          "drives generic.Driver and network.Driver (SendCommand, SendCommands) against a causal scripted device under 4-8 segmentation/delay variants and compares "
-         "Result/RawResult and the lines the device received. A deviation of the code (echo wait satisfied by stale bytes) is modelled as Text!EarlyEcho and listed as a known finding. Histories: the first send times out on a busy device, its late bytes arrive while the driver is being closed (forced at yield point C_wait), the same object is opened again and the command repeated. Commands from LF / CR LF files; consoles whose return key is a carriage return. OpOptions.tla (shared stage): StripPrompt / ExactMatchInput / Eager land whatever precedes them in the operation's option list.",
+         "Result/RawResult and the lines the device received. A deviation of the code (echo wait satisfied by stale bytes) is modelled as Text!EarlyEcho and listed as a known finding. Histories: the first send times out on a busy device, its late bytes arrive while the driver is being closed (forced at yield point C_wait), the same object is opened again and the command repeated. Commands from LF / CR LF files; consoles whose return key is a carriage return. OpOptions.tla (shared stage): StripPrompt / ExactMatchInput / Eager land whatever precedes them in the operation's option list. Added in rounds 7-8: an echo that the terminal breaks over two lines (default search depth); save / restore cursor in the escape catalogue (found a genuine defect, fix 0f6e27b).",
     note="Trusted: TLC; the scripted device (causal, never cuts inside an escape sequence); concretisation of the abstract alphabet. Bounds: 2 commands, outputs <= 11 symbols, "
          "read sizes {1,3,all}, queue <= 3 in the exhaustive config; 260 (quick) / 2500 (thorough) generated sessions x 4 / 8 variants.")
 CHECKS["C13"] = dict(
@@ -39,7 +39,7 @@ CHECKS["C02"] = dict(
          "payload and partition and enumerates all raw strings <= 6-7 symbols and all single-symbol edits (delete, insert, replace, truncate) of all legal frames of payloads <= 3-4. "
          "The harness feeds each to the public Record with poisoned spare capacity: no panic, no byte that is not in the input, legal => exact payload and not failed, malformed => failed. "
          "NcReplyScn.tla generates replies (multi-byte runes, '#', digits, newlines, rpc-error markers cut by chunk boundaries, XML declaration) that go through a server model and "
-         "netconf.Driver.Get under several read segmentations; Result and Failed are compared with the prediction. Added in round 6: a first chunk that ends inside the XML declaration; the known-finding class (a line '##' in view at a read boundary) is decided on the reads that really happened, so a payload line that merely starts with '##' is judged like any other.",
+         "netconf.Driver.Get under several read segmentations; Result and Failed are compared with the prediction. Added in round 6: a first chunk that ends inside the XML declaration; the known-finding class (a line '##' in view at a read boundary) is decided on the reads that really happened, so a payload line that merely starts with '##' is judged like any other. Round 8: one session in four over a transport that reuses its read buffer.",
     note="Trusted: TLC, the server model's framing. Byte classes limit chunk sizes to <= 22 in the exhaustive tier. Two genuine defects were repaired (fix: commits 9d3f9ee, 28b8a29); "
          "the read loop's '^##$' delimiter weakness is a recorded known finding.")
 CHECKS["C05"] = dict(
@@ -50,7 +50,7 @@ CHECKS["C05"] = dict(
          "operation never stays stuck (mc mode over length-compressed operations, exhaustive). In emit mode TLC prints the predicted class for every byte of every standard operation, whose exchange "
          "structure is exported from the device side of a fault-free run. The harness stalls the scripted device at that byte for generic/network/NETCONF operations and in-channel logins and checks: "
          "timeout-class error (privilege class allowed for an implicit privilege change), duration within effective timeout + slack and not before it, per-operation over connection-wide precedence "
-         "(shorter, longer, zero = maximum), a success only with the complete result, and after catch-up the next exchange returns its own result. Recovery is also judged after any written return on the privilege-aware driver, and after close/reopen of the same object (NETCONF replies carry the connection number). OpOptions.tla: the per-operation timeout lands in the channel and NETCONF layers whatever precedes it.",
+         "(shorter, longer, zero = maximum), a success only with the complete result, and after catch-up the next exchange returns its own result. Recovery is also judged after any written return on the privilege-aware driver, and after close/reopen of the same object (NETCONF replies carry the connection number). OpOptions.tla: the per-operation timeout lands in the channel and NETCONF layers whatever precedes it. Round 7: help output whose lines end like a prompt with a search depth just above the longest line, every byte a stall point.",
     note="Trusted: TLC; wall-clock bounds (400 ms slack on 90-260 ms timeouts, candidates re-executed alone before being reported); the device-side exchange lengths. Quick: thresholds +-1 and every 3rd/5th byte; thorough: every byte x 3 segmentations.")
 CHECKS["C06"] = dict(
     category="model_checking", design_ref="DESIGN.md §5 C06, §11",
@@ -72,7 +72,7 @@ CHECKS["C07"] = dict(
          "(queue, read under way, read loops, capability list, delimiter, message-ids and store, cached privilege level): the invariant Clean holds for the resets the code makes and is violated by "
          "each of 9 alternative decisions (among them: Open on a session that is still up goes straight on); the counterexamples are replayed as reopen histories by the harnesses of C01, C03, C04, C05, C06, C08, C09, C10 and C18. "
          "LifecycleTrace.tla (direction V): the yield sequences recorded from the real goroutines of every run on the scripted pipe (about 900 per quick run) are validated against Lifecycle.tla - a model step is a "
-         "silent step that must be followed by exactly the hook events the code emits; a rejection is model drift (reported in the evidence, not a verdict); corrupted logs must be rejected (binding guard).",
+         "silent step that must be followed by exactly the hook events the code emits; a rejection is model drift (reported in the evidence, not a verdict); corrupted logs must be rejected (binding guard). Rounds 7-8: a 3 ms read delay (Close in bounded time; fix d3b76cd); the standard SSH transport after the device ended the session (the connection must be closed; fix 8588b3d).",
     note="Trusted: TLC; the gate (15 ms bound) as scheduler; runtime.Stack census (a reader stuck in a transport Read that never returns is not a leak). Genuine defects repaired by fix: commits 31f9756, 46f498f, 9f0231e, 0de6c00, 3360717, a94e4ce, 2c64539, ac60d8f, 2ec7ac6, e610bf3.")
 CHECKS["C04"] = dict(
     category="model_checking", design_ref="DESIGN.md §5 C04, §11",
@@ -81,7 +81,7 @@ CHECKS["C04"] = dict(
     text="Privilege.tla: for every rooted labelled tree on 4 (thorough 5) levels, every set of authenticated edges, start mode, cold/warm cache and target, the loop ends at the target having issued "
          "exactly the escalate/de-escalate commands of the unique tree path, each in the mode it is a transition of (Reached, AlongPath, InPlace, NoError, termination). PrivScn.tla draws trees (incl. sibling "
          "levels that share one prompt, told apart only by the cached level), default/configuration levels, start modes and 1-4 operations (acquire, command, configs, configs at a level, config, interactive, "
-         "unknown target); the harness compares, per operation, the (mode, state, line) log of the device - commands, secrets in the password state, payload lines - the error class and the final mode. Further operation kinds: configuration lines from a file with a level option, an unknown level by option, a late answer followed by close/open (reopen-late), options of other layers in front of the level option. OpOptions.tla: network.PrivilegeLevel.",
+         "unknown target); the harness compares, per operation, the (mode, state, line) log of the device - commands, secrets in the password state, payload lines - the error class and the final mode. Further operation kinds: configuration lines from a file with a level option, an unknown level by option, a late answer followed by close/open (reopen-late), options of other layers in front of the level option. OpOptions.tla: network.PrivilegeLevel. Round 7: after a reopen a plain command (which trusts the cached level) every other time; the transport's Close reports an error in half of the reopens.",
     note="Trusted: TLC, the device model (rejects and logs lines arriving in the wrong mode). Exact prompts except for leaf twins; the device changes mode only through the driver; secondary secret configured.")
 CHECKS["C09"] = dict(
     category="model_checking", design_ref="DESIGN.md §5 C09, §11",
@@ -90,7 +90,7 @@ CHECKS["C09"] = dict(
     text="All 1296 combinations of advertised base versions x preferred version x hello layout (pretty, single line, with declaration) x namespace prefix x extra capabilities (incl. URNs that only contain "
          "a base capability as a substring) x session-id (none, small, 2^32-1) x echoing transport are generated by TLC with the predicted outcome. The harness checks Open's error class, the transport "
          "being closed on failure, SelectedVersion, ServerCapabilities(), SessionID(), the client's hello as received (exactly one, end-of-message framing, exactly base:<selected>), and that the first RPC "
-         "and its reply use the selected framing. Added in round 6: namespace prefixes with digits, underscore and capitals; hello layout 'wrapped' (the text of every capability on a line of its own - found a genuine defect, fix 9947d75).",
+         "and its reply use the selected framing. Added in round 6: namespace prefixes with digits, underscore and capitals; hello layout 'wrapped' (the text of every capability on a line of its own - found a genuine defect, fix 9947d75). Round 8: some cells over a transport that logs in inside the byte stream (found a genuine defect, fix 4f318c0); two line feeds behind the delimiter.",
     note="Trusted: TLC, the server model. Exhaustive over the stated dimensions; 1 (quick) / 3 (thorough) read segmentations per scenario. One genuine defect repaired (prefixed session-id).")
 CHECKS["C08"] = dict(
     category="model_checking", design_ref="DESIGN.md §5 C08, §11",
@@ -102,7 +102,7 @@ CHECKS["C08"] = dict(
          "reads of its own, possibly together with the echo of that request), never answers, or lets the client's write of the trailing return fail after the request went out; it compares the message-id the "
          "server decoded for each request with the reply each call returned (own id and request number), the error class of unanswered calls, and the id sequence. NcReadLoop.tla models the read loop itself "
          "(buffer, delimiter test, echo removal, filing under the first id) against every segmentation allowed by the quantifier, including echoes delayed past a timeout; the older loop versions must be rejected by TLC; "
-         "every behaviour (N = 2) on which an older loop version would lose a reply, plus a seeded sample of the rest, is replayed on netconf.Driver with reads released in the behaviour's order, followed by a probe call. Epilogues: a second session on the same driver (late reply delivered first), one transient read error followed by three calls, replies that mention a subscription (token sbody). NcReadLoop.tla models the transient error (ReadErr / TakeErr; a loop that leaves is rejected).",
+         "every behaviour (N = 2) on which an older loop version would lose a reply, plus a seeded sample of the rest, is replayed on netconf.Driver with reads released in the behaviour's order, followed by a probe call. Epilogues: a second session on the same driver (late reply delivered first), one transient read error followed by three calls, replies that mention a subscription (token sbody). NcReadLoop.tla models the transient error (ReadErr / TakeErr; a loop that leaves is rejected). Round 7: one session in four over a transport that delivers CR LF for LF (a read may end between the two); three long histories (sixteen and more late replies, then calls answered at once).",
     note="Trusted: TLC, the server model (strict decoder, read boundaries at server-message ends). Calls answered at once have a 4 s deadline so NoLoss is not a timing race; candidates are re-executed alone. "
          "Two genuine defects found and repaired (reply lost when a late reply shares a read with the echo of the next request; the same with two echoes pending - the second one found by TLC first).")
 CHECKS["C03"] = dict(
@@ -112,7 +112,7 @@ CHECKS["C03"] = dict(
     text="Sessions (1.0/1.1 x forced self-closing x header x 2-6 operations out of 17 kinds with 11 argument kinds incl. multi-byte, 5 kB, attributes, namespaces, empty elements, comment/CDATA/PI before a "
          "closing tag) are executed against the server model, whose strict stream decoder also reports separator errors between consecutive messages. Each request becomes one trace event carrying the byte "
          "classes of the wire message and the projections computed by the harness (encoding/xml token tree of the wire vs of the document the RFC prescribes for that call); TLC accepts the trace only if "
-         "every conjunct of the request contract holds; a rejected session is reported with the failing conjunct and the remaining sessions are still validated. Further: per cent signs in caller content; a session whose driver had an earlier session with a peer offering the other base version (the framing follows this session's two hellos). OpOptions.tla: the NETCONF operation options land whatever precedes them.",
+         "every conjunct of the request contract holds; a rejected session is reported with the failing conjunct and the remaining sessions are still validated. Further: per cent signs in caller content; a session whose driver had an earlier session with a peer offering the other base version (the framing follows this session's two hellos). OpOptions.tla: the NETCONF operation options land whatever precedes them. Round 7: a self-closed element with attributes inside a parent of the same name (found a genuine defect, fix da84f35).",
     note="Trusted: TLC, encoding/xml as the XML projection, the server model's strict decoder. 150 (quick) / 1200 (thorough) sessions.")
 CHECKS["C10"] = dict(
     category="model_checking", design_ref="DESIGN.md §5 C10, §11",
@@ -121,7 +121,7 @@ CHECKS["C10"] = dict(
     text="All well-formed scripts over banner / ask user / ask password / ask passphrase / reject / ssh failure line / shell / silence / peer closes the stream (<= 5 steps quick, 6 thorough; ~3.7k dialogues) "
          "are generated with Bounded, Paired, OkIffShell as invariants and the predicted outcome (ok, auth, connection, timeout) and answers. The harness plays the script from a login front end (prompt "
          "spellings and error lines rotated), and compares Open's error class, the (state, line) log of the device - each credential only in its own question, at most twice - the transport being "
-         "closed on every failure, and that the first GetPrompt after a successful login still finds the prompt read during login. Histories: admitted login, close while the device prints a late message and redraws its prompt (yield point C_wait), open again - the second login is a login like the first. Empty password / passphrase.",
+         "closed on every failure, and that the first GetPrompt after a successful login still finds the prompt read during login. Histories: admitted login, close while the device prints a late message and redraws its prompt (yield point C_wait), open again - the second login is a login like the first. Empty password / passphrase. Rounds 6-8: a device that asks in its own words with the patterns coming from a platform definition's options block; a reopen with late bytes coming back from the read that was under way after Close returned.",
     note="Trusted: TLC, the login front end. Timeout 300 ms; a mismatching outcome must reproduce when the dialogue is re-executed alone. Banners contain nothing a prompt pattern accepts.")
 CHECKS["C11"] = dict(
     category="model_checking", design_ref="DESIGN.md §5 C11, §11",
@@ -137,7 +137,7 @@ CHECKS["C12"] = dict(
               "been delivered when each client write arrived; PacingTrace.tla (the enabling conditions of Stall.tla's write actions) validates every write",
     text="For every recorded write TLC checks: an event's input only after the previous exchange's expected response (or prompt) was delivered; a plain command's return only after its echo was delivered "
          "unless eager; the secondary secret only while the device is in its password state (never when the device grants or refuses without asking); a successful interactive result contains the whole "
-         "dialogue. Dialogues include hidden inputs, responses preceded by a prompt-looking line, early completion by a completion pattern, generic and network drivers. OpOptions.tla: CompletePatterns / InterimPromptPatterns land whatever precedes them.",
+         "dialogue. Dialogues include hidden inputs, responses preceded by a prompt-looking line, early completion by a completion pattern, generic and network drivers. OpOptions.tla: CompletePatterns / InterimPromptPatterns land whatever precedes them. Rounds 6-8: the last words of a dialogue the device ends early belong to the result; a console log line behind the prompt after an escalation granted or refused without asking.",
     note="Trusted: TLC; device-side exchange lengths; reactions delayed 0.3-2.3 ms so that typing ahead is observable. The property does not require an echo wait for interactive events, so none is demanded.")
 CHECKS["C18"] = dict(
     category="model_checking", design_ref="DESIGN.md §5 C18, §11",
@@ -145,7 +145,7 @@ CHECKS["C18"] = dict(
               "decides membership in the firing rule with delivery boundaries existentially quantified",
     text="For each recorded firing TLC checks that the argument is the delivered stream since the last reset up to some delivery boundary (boundaries never move backwards), that the callback's trigger "
          "(contains with default case-insensitivity / regex class, and not the not-contains text) holds on it and no earlier callback's does, and that a once-callback does not run twice; for the outcome: "
-         "complete returns the whole dialogue up to that boundary, an operation error only after a once-callback's trigger won again, a time-out only when no trigger holds on what was accumulated. Earlier operations on the same driver (timed out; same list failing inside a callback - spent marks in the trace) and an earlier session whose last read comes back after Close precede a third of the operations each; every scenario runs in a process of its own.",
+         "complete returns the whole dialogue up to that boundary, an operation error only after a once-callback's trigger won again, a time-out only when no trigger holds on what was accumulated. Earlier operations on the same driver (timed out; same list failing inside a callback - spent marks in the trace) and an earlier session whose last read comes back after Close precede a third of the operations each; every scenario runs in a process of its own. Round 7: a question followed by a listing longer than the search depth in the same piece of output.",
     note="Trusted: TLC; the recorded delivered stream (device mutex order). 300 (quick) / 2500 (thorough) operations. One genuine defect repaired (not-contains inverted).")
 CHECKS["C15"] = dict(
     category="model_checking", design_ref="DESIGN.md §5 C15, §11",
@@ -154,7 +154,7 @@ CHECKS["C15"] = dict(
     text="Openings are sequences of negotiations (4 verbs x {SGA, ECHO, other}), two-byte commands, escaped IAC, single data bytes and a run of text. TLC enumerates all of <= 2 (quick) / 3 (thorough) items "
          "plus 250 / 1500 longer ones and predicts the reply bytes and the plain data. The harness compares the bytes the server received with the predicted replies (exactly once each, right verb) and the "
          "bytes the first reads return with the plain data (bytes of two-byte commands and an escaped 0xFF may appear or not), for whole / byte-wise / cut-after-IAC / halved / paused segmentations and read "
-         "sizes 8192, 2, 1.",
+         "sizes 8192, 2, 1. Round 6: the first attempt's server says something before it goes away (found a genuine defect, fix 3340f5c).",
     note="Trusted: TLC, loopback TCP. Socket timeout 240 ms; mismatches must reproduce when re-executed alone. One genuine defect repaired (data dropped after IAC NOP / IAC IAC).")
 CHECKS["C14"] = dict(
     category="model_checking", design_ref="DESIGN.md §5 C14, §11",
@@ -172,7 +172,7 @@ CHECKS["C16"] = dict(
     text="PipeScn.tla draws sessions over {telnet, standard, system} x {shell, netconf} with read sizes 17/64/8192, payloads of 1..5000 bytes per direction, peer chunking 1..4096, 60-byte lines or one long "
          "line, all 256 byte values where no tty is in the path, peers that start talking before Open returns, and a Read blocked at Close (also with a peer that has stopped answering) or when the peer goes "
          "away. Every received segment is a trace event (offset by position code, count of foreign bytes); TLC accepts a session only if segments are contiguous, within what was sent, unaltered, complete, "
-         "and the blocked Read returned. CLI and NETCONF driver sessions over each transport must give the results of the in-memory pipe. Every third session is the second one of its transport object; chunks handed out are kept and compared at the end (event kept); after the peer went away the next read and an orderly close return.",
+         "and the blocked Read returned. CLI and NETCONF driver sessions over each transport must give the results of the in-memory pipe. Every third session is the second one of its transport object; chunks handed out are kept and compared at the end (event kept); after the peer went away the next read and an orderly close return. Round 6: end-to-end sessions open the same driver a second time; the in-process SSH server refuses unknown subsystems (found a genuine defect, fix 5e7ad20).",
     note="Kernel pty/TCP and OpenSSH are outside any model (DESIGN.md §7): the model states the contract, the traces come from the real stack. Known finding: system transport + NETCONF leaves the pty cooked.")
 CHECKS["C17"] = dict(
     category="model_checking", design_ref="DESIGN.md §5 C17, §11",
@@ -182,7 +182,7 @@ CHECKS["C17"] = dict(
          "accept it, which levels' matchers accept which prompts, hand-written typical prompts per level (spec/platform_prompts.json) that must keep matching, step well-formedness, and the comparison of a "
          "variant's merged sections with the file; also every embedded definition must be reachable through an advertised name. TLC checks WellFormed for all and explores all (start, target) pairs with the "
          "map-order fallback as nondeterminism. The harness opens each platform against the definition-derived device (on-open steps observed), visits all deterministic pairs, closes (on-close steps "
-         "observed) and checks that user options layered on the definition win.",
+         "observed) and checks that user options layered on the definition win. Round 6: what is loaded after earlier loads of the same name (variants, a driver customised in place) is compared with the file section by section.",
     note="Trusted: TLC, regexp/syntax-based prompt sampler, yaml.v3 for the independent reading of the files. One genuine defect repaired (ruijie_rgos asset misnamed).")
 CHECKS["C19"] = dict(
     category="model_checking", design_ref="DESIGN.md §5 C19, §11",
@@ -191,7 +191,7 @@ CHECKS["C19"] = dict(
     text="35 option functions x 2 value variants, lists of 1-8 user options preceded by 0-3 options of a platform definition's options block (written into a real YAML definition for the platform "
          "constructor). For every constructor and every setting it exposes (transport args, ssh args, system transport fields, channel fields, generic/network/NETCONF driver fields, logger identity) the "
          "harness maps the constructed objects back to option tags and compares with Fold: last one wins, extra ssh arguments accumulate in order, untouched settings keep their defaults, user beats platform, "
-         "no error for options that do not apply, no panic. Added in round 6: Options!EdgeScn - a port that is another transport's default (22, 23, 830) or the largest one, with every built-in transport type, the two options in both orders, through all constructors.",
+         "no error for options that do not apply, no panic. Added in round 6: Options!EdgeScn - a port that is another transport's default (22, 23, 830) or the largest one, with every built-in transport type, the two options in both orders, through all constructors. Round 8: an earlier driver built from a prefix of the caller's option slice (found a genuine defect, fix cb3a7c3); an empty list of failure strings as a value (Options!EmptyScn).",
     note="Trusted: TLC; the reflection of real field values into tags. 500 (quick) / 4000 (thorough) lists x 4 constructors. Two genuine defects repaired (YAML list for transport-system-open-args panicked; "
          "logger not reaching netconf.Driver).")
 PENDING_REASON = "check not built yet in this session (work in progress; see DESIGN.md §5 for the planned TLA+ specification and binding)"
